@@ -1,7 +1,8 @@
 (* The textX instance of the checker soundness theorem: depends on the generated parser tables
    (Gen/SrcLangPeg.v, Gen/SrcTxPeg.v), so it is re-proved whenever the source under test changes,
    while the general proofs in Proofs/PegEquivProofs.v are not rebuilt. *)
-From TxV Require Import Core.Base Model.PegSyntax Model.Peg Proofs.PegProofs Model.PegEquiv Proofs.PegEquivProofs.
+From TxV Require Import Core.Base Model.PegSyntax Model.Peg Proofs.PegProofs Model.PegEquiv Proofs.PegEquivProofs
+  Proofs.PegEquivAccProofs.
 From TxV Require Import Gen.SrcLangPeg Gen.SrcTxPeg.
 
 Definition textx_R : list (nat * nat * bool) :=
@@ -18,7 +19,7 @@ Definition accepted_pair (p : nat * nat * bool) : bool :=
 (* every pair of the traversal passes the local check or is an accepted difference *)
 Lemma textx_pairs :
   frame_ok lang_grammar tx_grammar textx_R = true /\
-  forallb (fun p => local_ok lang_grammar tx_grammar textx_ne textx_R p || accepted_pair p) textx_R = true.
+  forallb (fun p => local_ok lang_grammar tx_grammar textx_ne false [] textx_R p || accepted_pair p) textx_R = true.
 Proof. vm_compute. split; reflexivity. Qed.
 
 Theorem textx_modulo_accepted input orc :
@@ -38,3 +39,38 @@ Qed.
 Lemma textx_not_ctx_constant :
   PegProofs.ctx_constant lang_grammar = false /\ PegProofs.ctx_constant tx_grammar = false.
 Proof. vm_compute. split; reflexivity. Qed.
+
+(* ---------------------------------------------------------------- acceptance only (weak mode) *)
+Definition textx_alts : list (nat * nat * nat) := alts_of lang_oracles textx_alt_patterns.
+
+Definition accepted_pair_acc (p : nat * nat * bool) : bool :=
+  match p with
+  | (i, j, _) => existsb (lp_eqb (label_of lang_labels i, label_of tx_labels j)) textx_accepted_diffs_acc
+  end.
+
+Lemma textx_pairs_acc :
+  frame_ok lang_grammar tx_grammar textx_R = true /\
+  forallb (fun p => local_ok lang_grammar tx_grammar textx_ne true textx_alts textx_R p || accepted_pair_acc p) textx_R = true /\
+  c_skipws lang_config = true /\ length textx_alts = length textx_alt_patterns.
+Proof. vm_compute. repeat split. Qed.
+
+Theorem textx_accepts_modulo_accepted input orc :
+  orc_nonempty textx_ne orc -> orc_alts textx_alts orc ->
+  (forall p, In p textx_R -> accepted_pair_acc p = true -> sem_okW lang_grammar tx_grammar textx_ne input orc p) ->
+  forall f1 f2,
+  run lang_grammar lang_config orc false f1 input <> Aborted 0 ->
+  run tx_grammar tx_config orc false f2 input <> Aborted 0 ->
+  PegEquiv.accepts (run lang_grammar lang_config orc false f1 input) =
+  PegEquiv.accepts (run tx_grammar tx_config orc false f2 input).
+Proof.
+  intros Hne Halt H f1 f2 A1 A2. destruct textx_pairs_acc as (F & A & SK & _).
+  assert (CE : tx_config = lang_config) by (vm_compute; reflexivity). rewrite CE in *.
+  assert (O : outcome_acc (run lang_grammar lang_config orc false f1 input) (run tx_grammar lang_config orc false f2 input)).
+  { apply (rel_sound_acc lang_grammar tx_grammar textx_ne textx_alts textx_R input orc Hne Halt F); [|exact SK].
+    intros p HIn. rewrite forallb_forall in A. specialize (A p HIn). apply orb_true_iff in A as [A|A].
+    - left. exact A.
+    - right. apply H; assumption. }
+  destruct O as [O|[O|O]]; [contradiction | contradiction |].
+  destruct (run lang_grammar lang_config orc false f1 input), (run tx_grammar lang_config orc false f2 input);
+    try contradiction; reflexivity.
+Qed.
